@@ -81,6 +81,20 @@ func Iter(f func() int) int {
 	return x
 }
 
+// WaitCall wraps one call of memoizer.wait by a reader: the call and its return (published length, ok flag) are
+// events of the trace, not scheduling points.
+func WaitCall[T any](f func(int) ([]T, bool), index int) ([]T, bool) {
+	id := CurrentID()
+	Note("C %d %d", id, index)
+	d, ok := f(index)
+	o := 0
+	if ok {
+		o = 1
+	}
+	Note("T %d %d %d %d", id, index, len(d), o)
+	return d, ok
+}
+
 func Go(f func()) *G {
 	g := &G{id: len(S.gs), grant: make(chan struct{}), kind: opStart}
 	S.gs = append(S.gs, g)
